@@ -1,7 +1,7 @@
 (* pins for C19: statements of the property theorems as of the time of pinning *)
-From Coq Require Import Arith NArith List Bool.
+From Coq Require Import Arith NArith List Bool Sorted.
 From Blue Require Import Scrunch.ModelBits Scrunch.Model Scrunch.ModelWT Scrunch.ProofsBits
-  Scrunch.ProofsSorted Scrunch.ProofsSuffix Scrunch.ProofsSearch Scrunch.ProofsSigma
+  Scrunch.ProofsSorted Scrunch.ProofsSuffix Scrunch.ProofsIAP Scrunch.ProofsSearch Scrunch.ProofsSigma
   Scrunch.ProofsDoc Scrunch.ProofsSampled Scrunch.ProofsCompressed Scrunch.ProofsWT1 Scrunch.ProofsWT2
   Scrunch.ProofsWT3 Scrunch.ProofsWT4.
 Import ListNotations.
@@ -14,6 +14,9 @@ Check C19_wavelet_psi_meets_the_psi_interface : forall text, let T := sigma_stri
 Check C19_reference_document_is_the_scan : forall text rb, check_record_boundaries text rb = true -> exists r, construct_refdoc text rb = Ok r /\ (forall needle, ref_search r needle = occurrences text needle /\ ref_count r needle = length (occurrences text needle)) /\ (forall off, off < length text -> ref_lookup r off = Ok (spec_record_of rb off)) /\ (forall k, k < length rb -> ref_retrieve r k = Ok (spec_record text rb k) /\ ref_offset_of r k = Ok (nth k rb 0)) /\ (forall k, length rb <= k -> ref_retrieve r k = Err /\ ref_offset_of r k = Err).
 Check C19_invalid_divisions_refused_alike : forall text rb, check_record_boundaries text rb = false -> construct_compressed text rb = Err /\ construct_reference_psi_doc text rb = Err /\ construct_refdoc text rb = Err.
 Check C19_empty_text_has_no_valid_division : forall rb, check_record_boundaries [] rb = false.
+Check C19_specification_is_the_plain_scan : forall text needle, StronglySorted lt (occurrences text needle) /\ forall p, In p (occurrences text needle) <-> p < length text /\ firstn (length needle) (skipn p text) = needle.
+Check C19_specification_record_of_offset : forall n rb off, valid_boundaries n rb -> off < n -> let r := spec_record_of rb off in r < length rb /\ nth r rb 0 <= off /\ (forall r', r < r' -> r' < length rb -> off < nth r' rb 0).
+Check C19_inverse_and_psi_one_pass : forall sa, NoDup sa -> Forall (fun v => v < length sa) sa -> 0 < length sa -> inverse_and_psi sa = Ok (inverse sa, psi_of sa (inverse sa)).
 Check C19_suffix_array_unique : forall T sa, is_suffix_array T sa -> sa = suffix_array T.
 Check C19_suffix_array_sorted : forall T, is_suffix_array T (suffix_array T).
 Check C19_rank_select_spec : forall b, (forall k p, bv_select b k = Some p -> bv_rank b p = Some k) /\ (forall k, (exists p, bv_select b k = Some p) <-> k <= count1 b) /\ (forall k p, 0 < k -> bv_select b k = Some p -> 0 < p /\ bv_access b (p - 1) = Some true) /\ (forall i, bv_access b i = Some true -> bv_select b (count1 (firstn (S i) b)) = Some (S i)) /\ (forall x, bv_rank b x = if x <=? length b then Some (count1 (firstn x b)) else None).
